@@ -264,6 +264,9 @@ def parse_run(events, start=0):
 
     def need(kind):
         nonlocal i
+        # np.mean calls are an implementation detail (where the centroid is taken): not part of the grammar
+        while kind != "mean" and i < n and events[i][0] == "mean":
+            i += 1
         if i >= n or events[i][0] != kind:
             got = events[i][0] if i < n else "end"
             raise GrammarError(f"expected {kind}, got {got} at event {i}")
@@ -291,8 +294,14 @@ def parse_run(events, start=0):
                 raise GrammarError("translation: expected normal")
             st.draws.append(d)
         elif st.change == 1:
-            m = need("mean")
-            st.src_obj = m[1]
+            # the centroid is normally taken here with np.mean(held); a loop that obtains it differently
+            # (tracks it, seed C09-1) is still parsed, and the oracle decides whether the proposal is a
+            # rotation about the centroid of the held configuration
+            if i < n and events[i][0] == "mean":
+                m = need("mean")
+                st.src_obj = m[1]
+            else:
+                st.src_obj = None
             u = need("draw")
             t = need("draw")
             if u[1] != "uniform" or t[1] != "normal":
@@ -657,7 +666,7 @@ def oracle_run(ctx, case, run, ret, n_steps, sim_type, held0, keyprefix="search"
             if not same_bits(T, held + d):
                 fail("translation-not-of-held", {"step": k})
         elif st.change == 1:
-            if st.src_obj is not held_obj and not same_bits(np.asarray(st.src_obj), held):
+            if st.src_obj is not None and st.src_obj is not held_obj and not same_bits(np.asarray(st.src_obj), held):
                 fail("rotation-centroid-not-of-held", {"step": k})
             c = held.mean(axis=0)
             R = st.rot[3]
